@@ -1,6 +1,9 @@
 ; sdk.Coins as an abstract multiset of denominations (denom -> amount >= 0).
 ; Coins_wf: the value satisfies Coins.IsValid() (every listed coin strictly positive, sorted, unique) —
 ; the bank keeper rejects transfers of coins that are not.
+; sdk.ValidateDenom
+(declare-fun valid_denom (Str) Bool)
+(assert (valid_denom {str "ujkl"}))
 (declare-fun Coins_amt (Coins Str) Int)
 (declare-fun Coins_wf (Coins) Bool)
 (declare-fun Coins_len (Coins) Int)
@@ -28,6 +31,8 @@
 (assert (forall ((x Coins) (c T_sdk_Coin)) (! (=> (Coins_wf (Coins_lit_add x c)) (and (Coins_wf x) (> (T_sdk_Coin_Amount c) 0))) :pattern ((Coins_wf (Coins_lit_add x c))))))
 ; (no extensionality axiom: a literal such as Coins{0ujkl} has the same amounts as the empty
 ; value but is not valid, so values are deliberately not identified by their amounts)
-; sdk.ValidateDenom
-(declare-fun valid_denom (Str) Bool)
-(assert (valid_denom {str "ujkl"}))
+; a Coins value as a list (range loops): Coins_len entries, entry i = Coins_at c i; valid coins list each denomination
+; once with a strictly positive amount, and amounts agree with Coins_amt
+(define-fun Coins_listed ((c Coins)) Bool
+  (and (forall ((i Int)) (! (=> (and (<= 0 i) (< i (Coins_len c))) (and (> (T_sdk_Coin_Amount (Coins_at c i)) 0) (valid_denom (T_sdk_Coin_Denom (Coins_at c i))) (= (Coins_amt c (T_sdk_Coin_Denom (Coins_at c i))) (T_sdk_Coin_Amount (Coins_at c i))))) :pattern ((Coins_at c i))))
+       (forall ((i Int) (j Int)) (! (=> (and (<= 0 i) (< i j) (< j (Coins_len c))) (not (= (T_sdk_Coin_Denom (Coins_at c i)) (T_sdk_Coin_Denom (Coins_at c j))))) :pattern ((Coins_at c i) (Coins_at c j))))))
